@@ -204,7 +204,7 @@ func init() {
 		},
 	})
 	eng.Register(&eng.Scenario{
-		Name: "csync-M3", Props: []string{"C01"}, MustFinish: true, ObsNames: stdObs,
+		Name: "csync-M3", Props: []string{"C01", "C02"}, MustFinish: true, ObsNames: stdObs,
 		Doc:   "Mutex: stale release - T1 releases twice, the second time possibly after T2 acquired; T3 probes with TryLock",
 		Quick: eng.Bounds{PB: 2}, Thorough: eng.Bounds{PB: 3},
 		Body: func() {
@@ -302,7 +302,7 @@ func init() {
 		},
 	})
 	eng.Register(&eng.Scenario{
-		Name: "csync-RW4", Props: []string{"C01"}, MustFinish: true, ObsNames: stdObs,
+		Name: "csync-RW4", Props: []string{"C01", "C02"}, MustFinish: true, ObsNames: stdObs,
 		Doc:   "RWMutex.Locker()/RLocker(): write locker, two users of one shared read locker",
 		Quick: eng.Bounds{PB: 2}, Thorough: eng.Bounds{PB: 3},
 		Body: func() {
@@ -671,13 +671,13 @@ func init() {
 		}
 	}
 	eng.Register(&eng.Scenario{
-		Name: "csync-M5", Props: []string{"C01"}, MustFinish: true, ObsNames: stdObs,
+		Name: "csync-M5", Props: []string{"C01", "C02"}, MustFinish: true, ObsNames: stdObs,
 		Doc:   "Mutex: the release function of one Lock acquisition is called concurrently by two threads while a third thread Locks and a fourth TryLocks: a repeated release may not free another holder",
 		Quick: eng.Bounds{PB: 2}, Thorough: eng.Bounds{PB: 3},
 		Body: mutexBody(false),
 	})
 	eng.Register(&eng.Scenario{
-		Name: "csync-M6", Props: []string{"C01"}, MustFinish: true, ObsNames: stdObs,
+		Name: "csync-M6", Props: []string{"C01", "C02"}, MustFinish: true, ObsNames: stdObs,
 		Doc:   "Mutex: as csync-M5 with a release function obtained from TryLock",
 		Quick: eng.Bounds{PB: 2}, Thorough: eng.Bounds{PB: 3},
 		Body: mutexBody(true),
@@ -706,7 +706,7 @@ func init() {
 		}
 	}
 	eng.Register(&eng.Scenario{
-		Name: "csync-RW5", Props: []string{"C01"}, MustFinish: true, ObsNames: stdObs,
+		Name: "csync-RW5", Props: []string{"C01", "C02"}, MustFinish: true, ObsNames: stdObs,
 		Doc:   "RWMutex: the release function of a write (or read, choice) acquisition, obtained from Lock or TryLock (choice), is called concurrently by two threads while a writer and a reader acquire",
 		Quick: eng.Bounds{PB: 2}, Thorough: eng.Bounds{PB: 3},
 		Body: func() {
@@ -770,12 +770,13 @@ func init() {
 func init() {
 	bg := context.Background()
 	eng.Register(&eng.Scenario{
-		Name: "csync-many-readers", Props: []string{"C01"}, MustFinish: true, ObsNames: stdObs, Horizon: 60000, NoRace: true,
+		Name: "csync-many-readers", Props: []string{"C01", "C02"}, MustFinish: true, ObsNames: stdObs, Horizon: 60000, NoRace: true,
 		Doc:   "RWMutex with n simultaneous read holders for n in {1, 2, 100, 255, 256, 257, 300, 1000} (choice), acquired through Lock, TryLock and RLocker in turn: a write TryLock is refused while any of them holds, whatever n is, and granted once all have released",
 		Quick: eng.Bounds{PB: 0}, Thorough: eng.Bounds{PB: 0},
 		Body: func() {
 			n := []int{1, 2, 100, 255, 256, 257, 300, 1000}[vsched.Choose(8)]
 			var m csync.RWMutex
+			shared := m.RLocker() // every RLocker hold goes through this one value (it keeps a stack of holds)
 			rels := make([]func(), 0, n)
 			for i := 0; i < n; i++ {
 				switch i % 3 {
@@ -794,9 +795,8 @@ func init() {
 					}
 					rels = append(rels, rel)
 				case 2:
-					l := m.RLocker()
-					l.Lock()
-					rels = append(rels, l.Unlock)
+					shared.Lock()
+					rels = append(rels, shared.Unlock)
 				}
 			}
 			vsched.CtrSet(cR, int64(n))
@@ -819,6 +819,62 @@ func init() {
 				return
 			}
 			r()
+		},
+	})
+}
+
+func init() {
+	eng.Register(&eng.Scenario{
+		Name: "csync-locker-misuse", Props: []string{"C01", "C02"}, MustFinish: true, ObsNames: stdObs,
+		Doc:   "Mutex.Locker / RWMutex.Locker / RWMutex.RLocker (choice): one thread does Lock; Unlock; Unlock again (the documented panic is recovered); Lock; Unlock on one Locker value while another thread uses the lock directly: the refused Unlock changes nothing - the second Lock is granted, nobody is left parked and the lock ends up free",
+		Quick: eng.Bounds{PB: 2}, Thorough: eng.Bounds{PB: 3},
+		Body: func() {
+			bg := context.Background()
+			which := vsched.Choose(3)
+			var m csync.Mutex
+			var rw csync.RWMutex
+			var l interface {
+				Lock()
+				Unlock()
+			}
+			write := true
+			switch which {
+			case 0:
+				l = m.Locker()
+			case 1:
+				l = rw.Locker()
+			case 2:
+				l = rw.RLocker()
+				write = false
+			}
+			T("K", func() {
+				for i := 0; i < 2; i++ {
+					label("Locker.Lock")
+					l.Lock()
+					label("")
+					acquired(write)
+					vsched.Point()
+					releasing(write)
+					l.Unlock()
+					if i == 0 {
+						func() {
+							defer func() {
+								if recover() == nil {
+									fail("C01.double-unlock-accepted", "a second Unlock of the Locker did not panic")
+								}
+							}()
+							l.Unlock()
+						}()
+					}
+				}
+			})
+			if which == 0 {
+				T("U", func() { useMutex(&m, bg, false) })
+				finalProbeMutex(&m)
+			} else {
+				T("U", func() { useRW(&rw, bg, true, false) })
+				finalProbeRW(&rw)
+			}
 		},
 	})
 }
